@@ -592,14 +592,15 @@ pub fn run_property(property: &str, tier: Tier, seed: u64, workers: usize, root:
         println!("{}", l);
     }
     println!("runs={} events={} distinct_nontrivial={} violating_runs={} wall={:.1}s evidence={}", total_runs, total_events, total_distinct, total_violating, wall, evidence_path.display());
-    if harness_error {
-        return 2;
-    }
+    // a violation confirmed by replay in a fresh process stands, whatever else went wrong
     if exit_violation {
         for l in &violation_lines {
             println!("{}", l);
         }
         return 1;
+    }
+    if harness_error {
+        return 2;
     }
     println!("OK property={} held on everything explored", property);
     0
